@@ -197,7 +197,8 @@ def c17_quick_models():
     # F7b names that themselves end in a word the generated type names are built from
     for gname in ("KitContainer", "KitContainerContainer", "VtblKit"):
         out.append(("names:group:%s" % gname, model(tr[:2], [{"name": gname, "mandatory": ["Alpha"], "optional": ["Beta"]}], [grp(gname), obj("Alpha")])))
-    for tname in ("StoreVtbl", "StoreContainer", "CGlueStore"):
+    # ... and a trait name with a non-ASCII capital: the generated member names use the Unicode lower-case form (vtbl_échelle)
+    for tname in ("StoreVtbl", "StoreContainer", "CGlueStore", "Échelle"):
         tt = trait(tname, [meth("store_put", "mut", ["u64"], "void"), meth("store_take", "own", [], "u64")])
         out.append(("names:trait:%s" % tname, model([tt, tr[0]], [{"name": "Bundle", "mandatory": ["Alpha"], "optional": [tname]}], [obj(tname), grp("Bundle")])))
     # F8 Self-returning entry (clone) as object and inside a group
